@@ -172,7 +172,9 @@ func numArray(n int, f func(i int) run.Node) run.Node {
 	return a
 }
 
-func objWith(k string, v run.Node) run.Node { return run.Node{T: "object", K: []string{k}, A: []run.Node{v}} }
+func objWith(k string, v run.Node) run.Node {
+	return run.Node{T: "object", K: []string{k}, A: []run.Node{v}}
+}
 
 var families = func() []family {
 	num := func(i int) run.Node { return run.Node{T: "json.Number", S: strconv.Itoa((i * 7919) % 10007)} }
